@@ -73,6 +73,28 @@ CHECKS = {
              'acknowledged under injected open/write/short-write/close failures.',
         note='cell precision per format string; sorted() order for "alphabetically"',
         ref='DESIGN.md 5/C19'),
+    'C01': dict(
+        technique='deterministic simulation: seeded construction histories of whole economies solved by the real '
+                  'library; per-period conservation invariant per currency + double-entry ledger reference model over '
+                  'the recorded trajectory',
+        text='Conservation is checked as a history invariant on every solved period of seeded economies across all '
+             'topology families, plus refinement of every sector\'s dF against the flows the program declares.',
+        note='ledger reference model in simfw/econref.py; numeric thresholds with tight-tolerance confirmation pass',
+        ref='DESIGN.md 5/C01'),
+    'C04': dict(
+        technique='deterministic simulation: seeded economies; per-market clearing/allocation identities per period '
+                  'against participants derived from the declared program',
+        text='Clearing and allocation identities on every period of seeded economies; who participates is decided by '
+             'an independent reference model of the declarations, not by the library\'s search.',
+        note='reference model in simfw/econref.py; confirmation pass at tolerance 1e-13',
+        ref='DESIGN.md 5/C04'),
+    'C07': dict(
+        technique='deterministic simulation: seeded multi-currency economies with time-varying rates; FX '
+                  'intermediary conservation per period; misuse fault = ExternalSector op removed',
+        text='Value conservation through the FX intermediary at every period, the FX book against declared sends and '
+             'receives, receiver credits, and the refusal clause under the removed-external-sector fault.',
+        note='exchange-rate paths keep inverted rates >= 5 percent apart',
+        ref='DESIGN.md 5/C07'),
 }
 
 NOT_APPLICABLE = [
